@@ -16,6 +16,7 @@ def check(fb, ctx):
     chain.third_party_signer_rules(fb, ctx)
     chain.layout_rules(fb, ctx, only=("generate_external_signature_payload", "generate_block_signature_payload"))
     chain.external_rules(fb, ctx)
+    chain.mode_selection_rules(fb, ctx)
     chain.dispatch_rules(fb, ctx, only=("verify_block_signature", "sign_block"))
     chain.deserialize_then_verify(fb, ctx)
     chain.decode_gates(fb, ctx)
